@@ -222,6 +222,19 @@ PLANS = {
                 "distinct_nontrivial = distinct words whose 1,024 subsets all agreed",
         "assumptions": COMMON_ASSUMPTIONS + ["the closure InfoSubset::normalize() is applied before the low-level call (as the tokenizer does)"],
     },
+    "C10": lambda tier: {
+        "level": "exploration",
+        "stages": [main_stage(40, 300, tier)],
+        "require": ["history_operations", "probes_compared", "history_analyses_rejected", "histories_completed"],
+        "rule": "seeded worlds (random plugin stacks incl. MeCab / regex OOV, path-rewrite plugins in 1 of 3) x histories of 5-40 operations on "
+                "ONE long-lived StatefulTokenizer + reused MorphemeList + reused split list: set_mode, set_subset (random of the 1,024 subsets; "
+                "restricted to supersets of surface/POS/normalised form when path-rewrite plugins are configured), analyse(text: empty, "
+                ">49,149 bytes, NFKC-expanding beyond 65,535 bytes, 5-85 repeats of one character, long and short key texts), split_into. "
+                "After EVERY operation a probe text is analysed by the long-lived pair and by a freshly created tokenizer + list with the same "
+                "mode and field request; boundaries, word ids and every requested field (through the accessors) must be equal, and a failed "
+                "analysis must leave the tokenizer usable. distinct_nontrivial = distinct histories that completed with all probes equal",
+        "assumptions": COMMON_ASSUMPTIONS + ["the fresh tokenizer of the same tree is the executable model"],
+    },
 }
 
 
